@@ -369,7 +369,15 @@ func (c *c17) client(pkg string, ents []*j5sgen.Entity, res j5sreal.Result) {
 	}()
 	if err != nil {
 		c.h.Count("entity.client-err")
-		c.fail("c17-client-api:"+classify(err.Error()), "client API not derivable from the compiled entity package: %v", err)
+		// an entity without events compiles to an EventType oneof without members, which protodesc refuses when
+		// the image is read back: identified by the input class, not by the third-party message
+		sig := "c17-client-api:" + classify(err.Error())
+		for _, e := range ents {
+			if len(e.Events) == 0 {
+				sig = "c17-client-api:entity-without-events"
+			}
+		}
+		c.fail(sig, "client API not derivable from the compiled entity package: %v", err)
 		return
 	}
 	c.h.Count("entity.client-ok")
